@@ -568,7 +568,8 @@ class CCITTFaxDecoder(CCITTG4Parser):
 def ccittfaxdecode(data: bytes, params: Dict[str, object]) -> bytes:
     K = params.get("K")
     if K == -1:
-        cols = cast(int, params.get("Columns"))
+        # ISO 32000-1 table 11: Columns defaults to 1728 when absent.
+        cols = cast(int, params.get("Columns", 1728))
         bytealign = cast(bool, params.get("EncodedByteAlign"))
         reversed = cast(bool, params.get("BlackIs1"))
         parser = CCITTFaxDecoder(cols, bytealign=bytealign, reversed=reversed)
